@@ -156,6 +156,8 @@ fn gen(seed: u64, idx: u64, t: Tier) -> J {
 			let (s, _) = gen::gen_stream(&mut r, Fmt::Yaml, nd, &cfg, true);
 			let text = String::from_utf8_lossy(&s.bytes).into_owned();
 			let text = if cfg.unicode { text } else { text.chars().filter(char::is_ascii).collect() };
+			// sometimes a large text with multi-byte characters at the 8/16 KiB edges of its UTF-8 form
+			let text = if r.chance(1, 6) { String::from_utf8_lossy(&gen::boundary_text(&mut r, Fmt::Yaml)).into_owned() } else { text };
 			bytes = encode_utf(&text, r.usize_below(4), r.chance(1, 2));
 			f = Fmt::Yaml;
 			family = "utf16_32";
